@@ -32,6 +32,17 @@ fn main() {
                     }
                 };
             }
+            "--first-use-race" => {
+                // child mode of props::first_use: only the race, in a process of its own
+                engine::install_quiet_panic_hook();
+                match props::first_use_race(&id) {
+                    Ok(()) => std::process::exit(0),
+                    Err(m) => {
+                        println!("{m}");
+                        std::process::exit(1);
+                    }
+                }
+            }
             "--replay" => {
                 i += 1;
                 replay = args.get(i).cloned();
@@ -80,6 +91,8 @@ fn main() {
 
     engine::clear_inflight(&id);
     let ctx = Ctx::new(&id, tier, seed_in);
+    // first use of the library in this process, from many threads at once - before anything else touches it
+    props::first_use(&ctx);
     // regression corpus first
     props::replay_corpus(&ctx);
     if !ctx.stopped() {
